@@ -448,8 +448,11 @@ def d6_read_awaited(ctx, which=('wpull.protocol.http.client:Session.download', '
                     vv = vv.args[0]
                 if k == 'assign' and isinstance(vv, ast.Call) and U.attr_name(vv) in ('read_body', 'read_stream', 'read_listing_content', '_read_body'):
                     starts.append((name, st))
-        direct = [x for x in walk_no_nested(f.node) if isinstance(x, ast.YieldFrom) and isinstance(x.value, ast.Call)
-                  and U.attr_name(x.value) in ('read_body', 'read_stream')]
+        READS = ('read_body', 'read_stream', 'read_listing_content', '_read_body')
+        direct = [x for x in walk_no_nested(f.node) if isinstance(x, (ast.YieldFrom, ast.Await)) and isinstance(x.value, ast.Call)
+                  and (U.attr_name(x.value) in READS
+                       or ((dotted(x.value.func) or '').endswith('wait_for') and x.value.args and isinstance(x.value.args[0], ast.Call)
+                           and U.attr_name(x.value.args[0]) in READS))]
         if not starts and not direct:
             continue
         for name, st in starts:
